@@ -39,6 +39,16 @@ TRIAGE = {
     'src/primitives/common/scanline.rs:49': 'horizontal lines: start.y == end.y, both branches give the same range',
     'src/primitives/rectangle/styled.rs:268': '(2s+1).min(w+1)/2 == (2s).min(w+1)/2 for all integers',
     'src/primitives/triangle/mod.rs:116': 'same as :102',
+    'core/src/geometry/point.rs:430': 'conversion of a Point into a tuple: no statement covers it',
+    'core/src/geometry/size.rs:275': 'Size += Size: no statement covers Size arithmetic',
+    'core/src/geometry/size.rs:357': 'conversion of a Size into a tuple: no statement covers it',
+    'core/src/primitives/rectangle/mod.rs:429': 'offset == 0: growing by 0 and shrinking by 0 give the same rectangle',
+    'src/mock_display/mod.rs:606': 'selects the panic message format by a build-time environment variable; both branches panic',
+    'src/mock_display/mod.rs:689': 'error of writeln! into a String formatter ignored: cannot fail',
+    'src/mono_font/mono_text_style.rs:177': 'differs only for fonts with a character height of 0 (baseline offset of a text nobody can see); C08, which has such fonts, requires no panic only, and wrapping does not panic',
+    'src/primitives/common/plane_sector.rs:122': 'moves points lying exactly on the radial boundary of a sector in or out: inside the 1.5 px band the statement of C18 allows there',
+    'src/primitives/common/scanline.rs:88': 'Scanline::touches stricter: spans are drawn separately instead of merged, same pixels',
+    'src/primitives/ellipse/mod.rs:94': 'offset == 0: same size either way',
     'src/primitives/triangle/scanline_intersections.rs:95': 'one extra loop iteration over an exhausted edge list',
 }
 
